@@ -96,16 +96,26 @@ pub(super) async fn apply_operations(
 
 /// Apply a [`SyncOp`] to the TaskDb's set of tasks (without recording it in the list of operations)
 pub(super) async fn apply_op(txn: &mut dyn StorageTxn, op: &SyncOp) -> Result<()> {
+    if let Some(reason) = try_apply_op(txn, op).await? {
+        return Err(Error::Database(reason));
+    }
+    Ok(())
+}
+
+/// Like [`apply_op`], but an operation that does not make sense in the current state is reported
+/// as `Ok(Some(reason))`, with nothing applied, so that callers which tolerate such operations can
+/// tell them apart from a failure of the storage backend.
+pub(super) async fn try_apply_op(txn: &mut dyn StorageTxn, op: &SyncOp) -> Result<Option<String>> {
     match op {
         SyncOp::Create { uuid } => {
             // insert if the task does not already exist
             if !txn.create_task(*uuid).await? {
-                return Err(Error::Database(format!("Task {uuid} already exists")));
+                return Ok(Some(format!("Task {uuid} already exists")));
             }
         }
         SyncOp::Delete { ref uuid } => {
             if !txn.delete_task(*uuid).await? {
-                return Err(Error::Database(format!("Task {uuid} does not exist")));
+                return Ok(Some(format!("Task {uuid} does not exist")));
             }
         }
         SyncOp::Update {
@@ -122,12 +132,12 @@ pub(super) async fn apply_op(txn: &mut dyn StorageTxn, op: &SyncOp) -> Result<()
                 };
                 txn.set_task(*uuid, task).await?;
             } else {
-                return Err(Error::Database(format!("Task {uuid} does not exist")));
+                return Ok(Some(format!("Task {uuid} does not exist")));
             }
         }
     }
 
-    Ok(())
+    Ok(None)
 }
 
 #[cfg(test)]
